@@ -425,6 +425,10 @@ def main(argv):
         import selftest
 
         return selftest.determinism(argv[1:])
+    if argv[0] == "selftest-refactorings":
+        import selftest
+
+        return selftest.refactorings(argv[1:])
     if argv[0] == "selftest-mutants":
         import selftest
 
